@@ -137,6 +137,8 @@ Record case := MkCase {
   k_kind : nat;                 (* observed outcome: 0 returned; 1 NotPSDError 2 NanError 3 RuntimeError
                                    4 NotImplementedError 5 AttributeError 6 UnboundLocalError 7 other *)
   k_events : list event;        (* observed solver primitives (as a set) *)
+  k_evmode : nat;               (* 0: equal to the model's set; 1: a subset of it (history: results may come from caches);
+                                   2: not compared (cat_rows fills the caches itself) *)
   k_mats : list (fmat * nat);   (* observed matrices (with their inner dimension) *)
   k_vecs : list fvec            (* observed vectors *)
 }.
@@ -174,16 +176,23 @@ Definition predicate (tol : float) (n : nat) (A : fmat) (q : query) (mats : list
    1 outcome kind   2 solver events   3 number/shape of outputs   4 factor values   5 spectrum
    6 property predicate fails on the observed factors *)
 Local Open Scope nat_scope.
+Definition ev_ok (c : case) (evs : list event) : bool :=
+  match k_evmode c with
+  | O => ev_same evs (k_events c)
+  | S O => ev_subset (k_events c) evs
+  | _ => true
+  end.
+
 Definition check (c : case) : nat :=
   let orc := oracles_of (k_tab c) in
   let '(r, evs0) := run_query ArFloat orc (k_st c) (k_expr c) (k_cache c) (k_query c) in
   let evs := concat (map (fun q => snd (run_query ArFloat orc (k_st c) (k_expr c) no_cache q)) (k_pre c)) ++ evs0 in
   let a := alg ArFloat orc (k_st c) (k_expr c) in
   match r with
-  | Err k => if Nat.eqb (k_kind c) (kind_code k) then (if ev_same evs (k_events c) then 0 else 2) else 1
+  | Err k => if Nat.eqb (k_kind c) (kind_code k) then (if ev_ok c evs then 0 else 2) else 1
   | Ok out =>
       if negb (Nat.eqb (k_kind c) 0) then 1
-      else if negb (ev_same evs (k_events c)) then 2
+      else if negb (ev_ok c evs) then 2
       else if negb (Nat.eqb (length (o_mats out)) (length (k_mats c)) && Nat.eqb (length (o_vecs out)) (length (k_vecs c))) then 3
       else if negb (all2 (fun x y => Nat.eqb (snd x) (snd y) && shape_is (a_n a) (snd y) (fst y)) (o_mats out) (k_mats c)) then 3
       else if k_values c && negb (all2 (fun x y => mat_close (k_tol c) (fmaxf 1%float (mmaxabs (fst x))) (fst x) (fst y)) (o_mats out) (k_mats c)) then 4
